@@ -27,6 +27,7 @@ type onceObj struct {
 }
 
 type timerObj struct {
+	dur     int64 // duration in ns when known (0 = unknown): lazy timers fire shortest first
 	id      int
 	ch      *Chan
 	fn      Value
@@ -158,6 +159,7 @@ func (w *World) visible(th *Thread, op *pendingOp) bool {
 	if th.granted {
 		th.granted = false
 		th.pending = nil
+		th.ranOp = true
 		return true
 	}
 	th.pending = op
@@ -531,6 +533,33 @@ func independentOps(a, b *pendingOp) bool {
 	return true
 }
 
+type arriveStep struct{ t *Thread }
+
+// runFresh runs newly created threads to their first visible operation (spawning commutes with everything)
+// and granted threads through their operation.
+func (w *World) runFresh() {
+	for {
+		progress := false
+		for i := 0; i < len(w.threads); i++ {
+			t := w.threads[i]
+			if t.done {
+				continue
+			}
+			if (t.pending != nil && t.granted) || (t.pending == nil && !t.started) {
+				t.started = true
+				w.runThread(t)
+				progress = true
+				if t.crashed {
+					w.threadCrashed(t)
+				}
+			}
+		}
+		if !progress {
+			return
+		}
+	}
+}
+
 // ---- the scheduler loop -----------------------------------------------------------------------
 
 // runQuiescent runs every thread that is not parked at a visible operation until all are.
@@ -566,7 +595,18 @@ func (w *World) schedule(main *Thread) {
 	var cur *Thread = main
 	sleep := map[*Thread]bool{}
 	for {
-		w.runQuiescent()
+		var arriving []*Thread
+		if w.eng.cfg.LazyArrive {
+			// threads that completed an operation and have not reached their next one yet
+			w.runFresh()
+			for _, t := range w.threads {
+				if !t.done && t.pending == nil {
+					arriving = append(arriving, t)
+				}
+			}
+		} else {
+			w.runQuiescent()
+		}
 		if main.done {
 			return
 		}
@@ -585,10 +625,23 @@ func (w *World) schedule(main *Thread) {
 		if w.eng.cfg.Timers == "never" {
 			timers = nil
 		}
-		if !curEnabled && len(en) == 0 {
+		if !curEnabled && len(en) == 0 && len(arriving) == 0 {
 			if len(timers) > 0 {
-				k := w.choose(len(timers), DSched)
-				w.fireTimer(timers[k])
+				// nothing else can run: time passes; the timers with the shortest duration fire first
+				min := int64(-1)
+				for _, t := range timers {
+					if min < 0 || t.dur < min {
+						min = t.dur
+					}
+				}
+				var first []*timerObj
+				for _, t := range timers {
+					if t.dur == min {
+						first = append(first, t)
+					}
+				}
+				k := w.choose(len(first), DSched)
+				w.fireTimer(first[k])
 				continue
 			}
 			// deadlock: main is not done and nothing can run
@@ -614,14 +667,28 @@ func (w *World) schedule(main *Thread) {
 		// threads in the sleep set are not offered (their operation commutes with everything executed
 		// since a sibling branch explored it first)
 		var opts []any
-		if curEnabled && !sleep[cur] {
+		curArriving := false
+		for _, t := range arriving {
+			if t == cur {
+				curArriving = true
+			}
+		}
+		if curArriving {
+			opts = append(opts, arriveStep{cur})
+			curEnabled = true
+		} else if curEnabled && !sleep[cur] {
 			opts = append(opts, cur)
 		}
-		canPreempt := !curEnabled || w.preempts < w.eng.cfg.Preempt || sleep[cur]
+		canPreempt := !curEnabled || w.preempts < w.eng.cfg.Preempt || (sleep[cur] && !curArriving)
 		if canPreempt {
 			for _, t := range en {
 				if !sleep[t] {
 					opts = append(opts, t)
+				}
+			}
+			for _, t := range arriving {
+				if t != cur {
+					opts = append(opts, arriveStep{t})
 				}
 			}
 			if w.eng.cfg.Timers == "eager" {
@@ -635,10 +702,19 @@ func (w *World) schedule(main *Thread) {
 			panic(pathEnd{kind: "pruned"})
 		}
 		k := w.choose(len(opts), DSched)
-		if curEnabled && !sleep[cur] && k != 0 {
+		if curEnabled && (!sleep[cur] || curArriving) && k != 0 {
 			w.preempts++
 		}
 		switch o := opts[k].(type) {
+		case arriveStep:
+			// running on to the next visible operation may be observed by non-blocking operations of
+			// others (select with default, TryLock): conservatively wake every sleeping thread
+			sleep = map[*Thread]bool{}
+			cur = o.t
+			w.runThread(o.t)
+			if o.t.crashed {
+				w.threadCrashed(o.t)
+			}
 		case *Thread:
 			if w.eng.cfg.SleepSets {
 				ns := map[*Thread]bool{}
